@@ -37,7 +37,9 @@ def writtenOnce (r : AttrRef) : Bool :=
 /-- Side condition on the regenerated facts (decidable). -/
 def FactsOK : Bool :=
   F.boolTrue == [2] && F.boolFalse == [1] && !F.optBoolWritesFalse && F.hashMapSep == [61] && F.passEnvSep == [61] &&
-  listed.all writtenOnce && C08.hashAlgo == "sha1"
+  listed.all writtenOnce && C08.hashAlgo == "sha1" &&
+  -- nothing memoises the rule hash before the target's pre-build function has run
+  C08.earlyRuleHashCalls == []
 
 /-- Obligation a code change can break (e.g. dropping a field from `ruleHash`). -/
 theorem C08_facts_ok : FactsOK = true := by decide
@@ -289,6 +291,51 @@ theorem C08_partial_srcs_iff (c : Ctx) (t : Target) (x y : List Bytes) :
     package names, so this pair needs a target added programmatically). -/
 theorem C08_witness_label_rendering :
     Collide {} { deps := [⟨[], a ++ [58] ++ b, cc⟩] } { deps := [⟨[], a, b ++ [58] ++ cc⟩] } := by decide
+
+/-! ### pre-build functions: the memoised hash must be the hash of the target AFTER they ran -/
+
+/-- The regenerated fact: is a memoising `RuleHash` call reachable before `RunPreBuildFunction`? -/
+abbrev early : Bool := !C08.earlyRuleHashCalls.isEmpty
+
+theorem early_false : early = false := by decide
+
+/-- In today's source the hash every later step of the build uses (`needsBuilding`, `writeRuleHash`, cache key,
+    action digest) is the hash of the target as the pre-build function left it — so every `C08_partial_*` result
+    applies to the attributes a pre-build function sets. -/
+theorem C08_prebuild_stamp (c : Ctx) (pb : Target → Target) (t : Target) :
+    stampSer F c early pb t = ruleSer F c (pb t) := by
+  simp [stampSer, early_false]
+
+/-- `set_command` in a pre-build function: two functions that set different commands give different stamps. -/
+theorem C08_prebuild_command (c : Ctx) (t : Target) (x y : Bytes) (hc : t.commands = none)
+    (e : stampSer F c early (fun u => { u with command := x }) t = stampSer F c early (fun u => { u with command := y }) t) :
+    x = y := by
+  rw [C08_prebuild_stamp, C08_prebuild_stamp] at e
+  exact C08_partial_command c t x y hc e
+
+theorem agree_outs (c : Ctx) (t : Target) (x y : List Bytes) :
+    AgreeExcept (.l .outs) (view F c { t with outs := x }) (view F c { t with outs := y }) := by
+  refine ⟨fun a h => ?_, fun a h => ?_, fun a h => ?_, fun a h => ?_, fun a h => ?_, fun _ => rfl, rfl⟩ <;>
+    cases a <;> simp_all [view]
+
+/-- `add_out` in a pre-build function: different resulting output lists give different stamps, up to the known
+    unframed class (equal concatenations). -/
+theorem C08_prebuild_outs (c : Ctx) (t : Target) (x y : List Bytes)
+    (e : stampSer F c early (fun u => { u with outs := x }) t = stampSer F c early (fun u => { u with outs := y }) t) :
+    x.flatten = y.flatten := by
+  rw [C08_prebuild_stamp, C08_prebuild_stamp] at e
+  have := C08_partial_list c _ _ .outs (by decide) (agree_outs c t x y) e
+  simpa [view] using this
+
+/-- Why the order matters (the fact above is needed): with a memoising call before the pre-build function, the
+    stamp does not depend on the function at all — a changed `set_command` leaves the target "unchanged". -/
+theorem C08_witness_early_memo (c : Ctx) (t : Target) (pb pb' : Target → Target) :
+    stampSer F c true pb t = stampSer F c true pb' t := by
+  simp [stampSer]
+
+example : ruleSer F {} ({ command := x } : Target) ≠ ruleSer F {} ({ command := y } : Target) ∧
+    stampSer F {} true (fun u => { u with command := x }) {} = stampSer F {} true (fun u => { u with command := y }) {} := by
+  decide
 
 /-! ### the repair: framing every write over the same schema -/
 
